@@ -236,6 +236,10 @@ def originArc (p1 p3 C : V) (mult eps : Rat) : Except String OriginOut :=
       else if ws = 0 then .error "nan"
       else .ok ⟨false, C, arcMid C p1 p3 wR ws⟩
 
+/-- the bound of the denominator guard of `arc_length_3point`: the double that the literal `1e-18` denotes, exactly
+    (`1298074214633707 / 2^110`, slightly above the decimal 10⁻¹⁸); `T_C08_tie_arc3` proves it equal to the regenerated value -/
+def arc3Eps : Rat := mkRat 1298074214633707 1298074214633706907132624082305024
+
 structure Arc3Out where
   centre : V
   cos : Float
@@ -246,7 +250,7 @@ structure Arc3Out where
     Exact part: centre, radius vectors, the sign test; Float part: the two norms, `acos`, the product. -/
 def arc3 (pS pB pE : V) : Option Arc3Out :=
   let denom := arc3Denom pS pB pE
-  if absR denom < mkRat 1 (10 ^ 18) then none
+  if absR denom < arc3Eps then none
   else
     let centre := arc3Centre pS pB pE
     let r1 := sub pS centre
@@ -322,7 +326,7 @@ def handleArc3 (args : List String) : Option String :=
     angle is above π (`sθ < 0`) exactly when the code's side test says "exterior".  These are the hypotheses under which
     `T_C08_arc3_length_real` states `length = radius × angle` over ℝ.  `none` = all clauses hold. -/
 def arc3AngleCheck (pS pB pE : V) (cθ sθ eps : Rat) : Option String :=
-  if absR (arc3Denom pS pB pE) < mkRat 1 (10 ^ 18) then some "reject"
+  if absR (arc3Denom pS pB pE) < arc3Eps then some "reject"
   else
     let centre := arc3Centre pS pB pE
     let r1 := sub pS centre
